@@ -23,11 +23,12 @@ def opEq : P String := do
     match eps.find? (fun e => e.1.start == a && e.1.stop == b) with | some e => e.2 | none => nan
   pure (showFloat (signed isPay (pv df vd (eqFlows dfI iyf dvd price qty vd 1.0 l0 (eps.map (·.1))))))
 
-/-- `RN m i n resets…` → the notional of floating period `i` (`rateNotional`: reset `i / m`), `none` past the end. -/
+/-- `RN s n (start stop notional)*` → the notional a floating period starting on `s` accrues on (`rateNotional`: the
+reset notional of the equity period with `start ≤ s < stop`), `none` outside every period. -/
 def opRn : P String := do
-  let m ← pNat; let i ← pNat
-  let rs ← pList pFloat
-  pure (match rateNotional m rs i with | some x => showFloat x | none => "none")
+  let s ← pInt
+  let eqs ← pList (do let a ← pInt; let b ← pInt; let n ← pFloat; pure (({ start := a, stop := b, pay := b, yf := 0.0 } : Period Float), n))
+  pure (match rateNotional eqs s with | some x => showFloat x | none => "none")
 
 def step (t : List String) : String :=
   let r := match t with
